@@ -183,13 +183,14 @@ theorem bad_creator_or_no_config_refused (cfg : Option Config) (ms : List Method
   · subst h; cases cfg <;> cases hb
 
 /-- per-run obligations on the dispatch skeleton extracted from the current source: the cases of
-    the function-name switch in source order, exactly the robot-guarded ones, exactly the ones that
+    the function-name switch (as a set), exactly the robot-guarded ones (a case is guarded when it
+    reaches `ValidateSKI` directly or through helpers of package core), exactly the ones that
     end the invocation, the disabled test before routing, and the two places that apply it. -/
 theorem facts_dispatch :
-    Foundation.Facts.invokeCaseOrder =
-      ["createIndex", "batchExecute", "swapDone", "multiSwapDone"] ++ robotFns ++ ["executeTasks"] ∧
-    Foundation.Facts.robotGuardedFns = "batchExecute" :: robotFns ∧
-    Foundation.Facts.returningCases = ["createIndex", "batchExecute", "swapDone", "multiSwapDone", "executeTasks"] ∧
+    Foundation.Facts.invokeCaseOrder.isPerm
+      (["createIndex", "batchExecute", "swapDone", "multiSwapDone"] ++ robotFns ++ ["executeTasks"]) = true ∧
+    Foundation.Facts.robotGuardedFns.isPerm ("batchExecute" :: robotFns) = true ∧
+    Foundation.Facts.returningCases.isPerm ["createIndex", "batchExecute", "swapDone", "multiSwapDone", "executeTasks"] = true ∧
     Foundation.Facts.invokeDisabledTestBeforeRouting = 1 ∧
     Foundation.Facts.disabledTestSites = ["Invoke", "validatedTxSenderMethodAndArgs"] := by
   decide
